@@ -285,17 +285,31 @@ def job_container(cfg):
     nw = 4
     Br = samplers.build(sysd, "restricted", nw, dt=0.05)
     Bu = samplers.build(sysd, "unrestricted", nw, dt=0.05, trial_kind="uhf")
+    # second pair: the user supplies an rdm1 for the mean-field shift that is NOT the trial's own (allowed by the
+    # wave_function docstring); both containers get the same one and must still follow the same trajectory
+    pert = 0.06 * al.dense_sym(n, cfg["seed"], 33)
+    pairs_B = [(Br, Bu)]
+    if cfg["level"] == "sampler":
+        B2 = []
+        for B0 in (Br, Bu):
+            wd2 = dict(B0["wave_data"])
+            wd2["rdm1"] = B0["wave_data"]["rdm1"] + jnp.asarray(np.array([pert, pert]))
+            hd2 = {k: v for k, v in B0["ham_data"].items() if k in ("h0", "h1", "chol", "ene0")}
+            hd2 = B0["ham"].build_measurement_intermediates(hd2, B0["trial"], wd2)
+            hd2 = B0["ham"].build_propagation_intermediates(hd2, B0["prop"], B0["trial"], wd2)
+            B2.append(dict(B0, wave_data=wd2, ham_data=hd2))
+        pairs_B.append(tuple(B2))
     seeds = [0, 1, 7]
     if cfg["level"] == "sampler":
         samp = L["sampling"].sampler(cfg["n_steps"], cfg["n_ene"], cfg["n_sr"], 1)
-        for entry in ["plain", "ad", "ad_nosr", "ad_norot", "ad_nosr_norot"]:
+        for entry, (Br_, Bu_) in [(e, pb) for pb in pairs_B for e in ["plain", "ad", "ad_nosr", "ad_norot", "ad_nosr_norot"]]:
             for sd in seeds:
                 outs = []
-                for B in (Br, Bu):
+                for B in (Br_, Bu_):
                     pd = samplers.fresh_prop_data(B, jax.random.PRNGKey(sd))
                     e, po = samplers.call_entry(B, samp, entry, pd)
-                    wk = np.asarray(po["walkers"]) if B is Br else np.asarray(po["walkers"][0])
-                    wk_dn = wk if B is Br else np.asarray(po["walkers"][1])
+                    wk = np.asarray(po["walkers"]) if B is Br_ else np.asarray(po["walkers"][0])
+                    wk_dn = wk if B is Br_ else np.asarray(po["walkers"][1])
                     outs.append((float(e), np.asarray(po["weights"]), wk, wk_dn))
                 res.add(states=1, transitions=2, evaluations=1, traces=2)
                 de = abs(outs[0][0] - outs[1][0])
